@@ -17,7 +17,8 @@ RULE = ("secret keys of the four curves (uniform valid scalars plus 1, n-1, high
         "lengths, in english and eight other wordlists, spelled NFKD / NFC / with ideographic spaces (japanese); emails/passwords. Oracle: public key == independent derivation (cryptography / py_ecc primitives), "
         "pkh == b58(tzN, blake2b-160(pk)) and HASH_KEY agrees, export/import (plain, encrypted, Ed25519 seed and "
         "64-byte form) preserves the key, wrong passphrase rejected, validate_mnemonic accepts iff the independent "
-        "BIP-39 checksum accepts, from_mnemonic deterministic and equal to an independent PBKDF2 derivation. "
+        "BIP-39 checksum accepts, from_mnemonic deterministic and equal to an independent PBKDF2 derivation; the wallet-file route "
+        "(from_faucet) accepts exactly the same sentences and derives the same key. "
         "Non-trivial: case exercises encryption or a mnemonic. Distinct = distinct case.")
 
 os.environ.setdefault("PYTEZOS_PASSPHRASE", "")  # never prompt
@@ -162,6 +163,27 @@ def check_mnemonic(case):
         if ok:
             raise Violation("from_mnemonic(validate=True) accepted an invalid mnemonic %r" % text, case,
                             "from_mnemonic-accepted-invalid")
+    if lang == "english":
+        # the wallet-file route (faucet / fundraiser json: Ed25519, English): same acceptance rule, same key. The file's pkh is the
+        # one its sentence derives (independently computed), so only the checksum decides.
+        norm = unicodedata.normalize("NFKD", " ".join(words))
+        salt = unicodedata.normalize("NFKD", "mnemonic" + case["email"] + case["password"])
+        seed = hashlib.pbkdf2_hmac("sha512", norm.encode(), salt.encode(), 2048)[:32]
+        pub = rc.derive_public("ed", seed)
+        wallet = {"mnemonic": list(words), "password": case["password"], "email": case["email"], "activation_code": "0" * 40,
+                  "pkh": rc.tz_encode(rc.blake2b_20(pub), "tz1"), "secret": "0" * 40, "amount": "1"}
+        try:
+            k = Key.from_faucet(wallet)
+            acc = True
+        except Exception as e:
+            k, acc = e, False
+        if acc != valid:
+            raise Violation("from_faucet %s a wallet file whose mnemonic (%d words) has %s BIP-39 checksum (%r)" % (
+                "accepted" if acc else "rejected", len(words), "a valid" if valid else "an invalid", k if not acc else " ".join(words)), case,
+                "from_faucet-%s" % ("accepted-invalid" if acc else "rejected-valid"))
+        if acc and k.public_key() != rc.tz_encode(pub, "edpk"):
+            raise Violation("from_faucet derives %s, independent derivation %s" % (k.public_key(), rc.tz_encode(pub, "edpk")), case,
+                            "from_faucet-derivation")
     return valid
 
 
